@@ -24,7 +24,42 @@ FX_CALLS = [r'\.complete_request\(', r'Self::poll_expired__closure\(']
 
 VOCAB = Raw('''
 pub struct CEntry { pub ctx: context::Context, pub chan: int }
+/// C09: the log l1 extends l0 by exactly one delivery per entry of v (in the order `order` of their ids), each to the
+/// oneshot channel of that entry and each carrying a value produced by `f`
+pub open spec fn delivered_all<Res, F: Fn() -> Res>(v: Map<u64, CEntry>, l0: Seq<Effect<Res>>, l1: Seq<Effect<Res>>, order: Seq<u64>, f: F) -> bool {
+    &&& forall|i: int, j: int| 0 <= i < j < order.len() ==> order[i] != order[j]
+    &&& forall|i: int| 0 <= i < order.len() ==> v.contains_key(#[trigger] order[i])
+    &&& forall|k: u64| v.contains_key(k) ==> exists|i: int| 0 <= i < order.len() && #[trigger] order[i] == k
+    &&& l1.len() == l0.len() + order.len()
+    &&& forall|i: int| 0 <= i < l0.len() ==> #[trigger] l1[i] == l0[i]
+    &&& forall|i: int| 0 <= i < order.len() ==> ((#[trigger] l1[l0.len() + i]) matches Effect::Deliver { chan, value }
+            && chan == v[order[i]].chan && call_ensures(f, (), value))
+}
 ''')
+
+COMPLETE_ALL_LOOP = '''
+    invariant
+        call_requires(result, ()),
+        0 <= it__n <= it__all.len(), drain__it@ == it__all.subrange(it__n, it__all.len() as int),
+        fx.log.len() == old(fx).log.len() + it__n,
+        forall|i: int| 0 <= i < old(fx).log.len() ==> #[trigger] fx.log[i] == old(fx).log[i],
+        forall|i: int| 0 <= i < it__n ==> ((#[trigger] fx.log[old(fx).log.len() + i]) matches Effect::Deliver { chan, value }
+            && chan == it__all[i].1.response_completion.chan() && call_ensures(result, (), value)), // @C09
+    ensures it__n == it__all.len(),
+    decreases it__all.len() - it__n
+'''
+COMPLETE_ALL_POST = '''
+    proof {
+        let order = Seq::new(it__all.len(), |i: int| it__all[i].0);
+        assert(delivered_all(old(self)@, old(fx).log, fx.log, order, result)) by {
+            assert forall|k: u64| old(self)@.contains_key(k) implies exists|i: int| 0 <= i < order.len() && #[trigger] order[i] == k by {
+                assert(old(self).request_data@.contains_key(k));
+                let i = choose|i: int| 0 <= i < it__all.len() && (#[trigger] it__all[i]).0 == k;
+                assert(order[i] == k);
+            }
+        }
+    }
+'''
 
 IMPL_VOCAB = Raw('''
     /// abstract view: id -> (context stored with the request, oneshot channel of the waiting call)
@@ -90,6 +125,29 @@ def parts():
                    old(self)@.contains_key(request_id) ==> final(self).timers() =~= old(self).timers().remove(old(self).key_of(request_id)), // @C05,C11
                    !old(self)@.contains_key(request_id) ==> final(fx).log == old(fx).log && final(self).timers() =~= old(self).timers(), // @C01,C16
                    step_complete(old(self)@, old(fx).log, final(self)@, final(fx).log, request_id, result), // @C01
+               '''),
+            Fn(SRC, IMPL, 'complete_all_requests', fx=True, tags='C16', fuse_iter=True,
+               rules=[
+                   Rule('R5:generic-F', r"fn complete_all_requests\(", 'fn complete_all_requests<F: Fn() -> Res>(', 1, where='sig',
+                        why="impl-Trait argument written as a named generic (the lifetime 'a, which only ties the returned iterator to self, is dropped by R2:lifetime-a)"),
+                   Rule('R5:lifetime-self', r"&'a mut self", '&mut self', 1, where='sig', why="the lifetime only ties the returned iterator to self"),
+                   Rule('R5:fnmut-param', r"mut result: impl FnMut\(\) -> Res \+ 'a", 'result: F', 1, where='sig',
+                        why='Verus has no FnMut: the bound is NARROWED to Fn (the contract is proved for every Fn closure; the only call site passes one: `|| Err(RpcError::Channel(e.clone()))`)'),
+                   Rule('R17:ret-iterator', r"\s*->\s*impl Iterator<Item = Span> \+ 'a", '', 1, where='sig',
+                        why='R17: the function is emitted run to exhaustion; the yielded Spans are only entered for logging by the consumer (A-tracing)'),
+               ],
+               loops=[COMPLETE_ALL_LOOP],
+               post=COMPLETE_ALL_POST,
+               requires='''
+                   old(self).wf(), // @core
+                   call_requires(result, ()), // @core
+               ''',
+               ensures='''
+                   final(self).wf(), // @core:C09,C11,C16
+                   final(self)@ =~= Map::<u64, CEntry>::empty(), // @C09,C11
+                   final(self).timers() =~= Map::<delay_queue::Key, delay_queue::Entry>::empty(), // @C11
+                   // C09: every in-flight call is delivered exactly one value of `result`, and nothing else is delivered
+                   exists|order: Seq<u64>| delivered_all(old(self)@, old(fx).log, final(fx).log, order, result), // @C09
                '''),
             Fn(SRC, IMPL, 'cancel_request', tags='C16',
                requires='old(self).wf(), // @core',
@@ -161,7 +219,7 @@ def parts():
 
 def unit():
     from vx.extract import Unit
-    return Unit('client_table', prelude=['base.rs', 'time.rs', 'delay_queue.rs', 'oneshot_tx.rs'],
+    return Unit('client_table', prelude=['base.rs', 'time.rs', 'delay_queue.rs', 'oneshot_tx.rs', 'hash_iter.rs'],
                 parts=parts(), rules=TABLE_RULES,
                 fx_fns=FX_CALLS,
                 fx_prims=[r'response_completion\.send\('], fx_type='Fx<Res>', lemmas=['client_history.rs'])
